@@ -31,14 +31,17 @@ ASSUMPTIONS = [
     'valid use needs exist - so nothing in a generated case can fail for a non-textual reason',
     '[cleanup] never gets a mutation that inserts a reference to a symbol defined in the case (DESIGN section 6: a '
     'skipped def referenced from [cleanup] is outside the quantifier)',
+    'no generated `copy` / `dir-contents-of` names a directory that contains its own destination (copying the act '
+    'directory into itself recurses until RecursionError -> INTERNAL_ERROR; not one of the classes of the statement) '
+    'and no chain of symbol definitions is deeper than 300 (a 2000-deep chain ends in RecursionError)',
     'only `exactly FILE` (no --act/--keep, no suites, no preprocessor); case files are valid UTF-8',
 ]
 EXHAUSTIVE_NOTE = ('deterministic core (both tiers, seed independent): every template (valid use) x every token x every '
                    'labelled mutation, and end-of-file at every character of every minimal use')
-MIN_OBS = {'quick': {'evaluations': 20000, 'c18.judged': 20000, 'c18.valid_base_pass': 300, 'c18.exit65_located': 5000,
-                     'c18.must_report_checked': 1500, 'classes': 800},
-           'thorough': {'evaluations': 60000, 'c18.judged': 60000, 'c18.valid_base_pass': 1000,
-                        'c18.exit65_located': 15000, 'c18.must_report_checked': 1500, 'classes': 1000}}
+MIN_OBS = {'quick': {'evaluations': 25000, 'c18.judged': 25000, 'c18.valid_base_pass': 400, 'c18.exit65_located': 15000,
+                     'c18.must_report_checked': 3000, 'classes': 2000},
+           'thorough': {'evaluations': 100000, 'c18.judged': 100000, 'c18.valid_base_pass': 3000,
+                        'c18.exit65_located': 60000, 'c18.must_report_checked': 4000, 'classes': 5000}}
 
 MUST_REPORT_LABELS = ('bad-int', 'bad-regex', 'bad-repl', 'unknown-instruction', 'unknown-phase', 'wrong-type!')
 
@@ -421,15 +424,18 @@ def run_case(case, ctx):
     res = {'classes': [(case['phase'], case['instr'] if case['group'] != 'seeded' else 'seeded', case['label'],
                         case['kind'], ident)],
            'viol': viol, 'inconclusive': inconc}
-    if case['label'] in ('bad-regex', 'unknown-instruction', 'truncate', 'wrong-type!') and case['tok'] in (-1, 0, 3) \
-            and case['tpl'].endswith('#0') and r.rc == 65:
-        res['sample'] = {'label': case['label'], 'mutation': case['detail'], 'case_text': case['text'],
+    if case['label'] in _SAMPLE_LABELS and case['label'] not in _SAMPLED and (r.rc in (65, 129)):
+        _SAMPLED.add(case['label'])
+        res['sample'] = {'label': case['label'], 'mutation': case['detail'], 'case_text': case['text'][-1500:],
                          'expected': 'documented outcome; no INTERNAL_ERROR/traceback; exit 65 names line N and shows it'
                                      + ('; must be reported (65 or HARD_ERROR)' if case['must_report'] else ''),
-                         'observed': {'rc': r.rc, 'stdout': r.out, 'stderr': r.err[:600]}}
+                         'observed': {'rc': r.rc, 'stdout': r.out, 'stderr': r.err[:500]},
+                         'violations': [v['what'] for v in viol]}
     return res
 
 
+_SAMPLE_LABELS = ('bad-int', 'wrong-type!', 'quote', 'bad-regex', 'truncate', 'unknown-phase')
+_SAMPLED = set()
 _KNOWN_EMITTED = {}
 _KNOWN_CAP = 6
 
